@@ -7,7 +7,8 @@ from pyvc import native
 from . import refmodel as rm
 
 VERS = ["1.4", "1.5", "2.0", "2.1", "2.2"]
-PAYLOADS = ["", "57", "20.0", ";", "a;b", "55.7;12.5;0", " x", "x;", ";;", "é", "a/b"]
+PAYLOADS = ["", "57", "20.0", ";", "a;b", "55.7;12.5;0", " x", "x;", ";;", "é", "a/b", "Line 1\tcol 2", "21.5\xa0°C", "\x1b[2Jhello", "a\x00b", "x" * 26,
+            "A text for the display that is longer than a radio frame", "x" * 300, "a\x7fb", "tab\tend", "\u2028x", "a b  c"]
 FIELDS = ["0", "1", "255", "256", "-1", "3", "4", "5", "x", "", " 1", "1_0", "99999999999999999999"]
 
 
@@ -58,6 +59,38 @@ def check_message(version, fields):
     return None
 
 
+def decode_on(s, line):
+    from marshmallow import ValidationError
+    try:
+        m = s.load(line)
+        return ("ok", m.node_id, m.child_id, m.command, m.ack, m.message_type, m.payload)
+    except ValidationError:
+        return ("rejected",)
+    except Exception as e:  # noqa: BLE001
+        return ("error", type(e).__name__)
+
+
+STATEFUL_LINES = ["1;5;3;0;3;", "1;5;3;0;0;0", "1;5;3;0;4;7", "1;5;4;0;0;", "1;255;3;0;0;55", "1;5;1;0;0;1", "1;5;3;0;11;x", "2;7;3;0;3;", "2;7;3;0;6;",
+                  "2;7;0;0;6;d", "2;7;3;0;6;", "0;255;3;0;2;2.2", "0;0;3;0;2;2.2", "1;255;0;0;17;2.2", "1;255;1;0;0;1", "1;0;5;0;0;", "1;0;1;0;0;x;y",
+                  "1;0;1;0;0;x", "300;0;1;0;0;x", "1;0;1;0;0;x", "1;0;1;2;0;x", "1;0;1;1;0;x", "1;0;1;0;99;x", "1;0;1;0;0;x", "1;5;3;0;3;", "1;5;3;0;6;"]
+
+
+def check_stateless(version):
+    """The decoder is a function of (protocol, line): decoding a line on a schema that has already decoded other lines gives
+    what a fresh schema gives.  Returns (failure or None, evaluations)."""
+    n = 0
+    for order in (STATEFUL_LINES, list(reversed(STATEFUL_LINES))):
+        shared = schema(version)
+        history = []
+        for line in order:
+            got, want = decode_on(shared, line + "\n"), decode_on(schema(version), line + "\n")
+            n += 1
+            if got != want:
+                return {"version": version, "line": line, "after": history[-6:], "observed": f"on a schema that decoded the earlier lines: {got}; on a fresh schema: {want}"}, n
+            history.append(line)
+    return None, n
+
+
 def wf(fields):
     n, c, k, a, t, p = fields
     return rm.decode(rm.enc(n, c, k, a, t, p)) is not None and p == p.rstrip() and "\n" not in p and "\r" not in p
@@ -78,6 +111,11 @@ def search(prop, versions=VERS, first_lines=(), first_msgs=(), budget=4000):
                 if r:
                     return {"version": v, "message": list(f), "observed": r}, n
     if prop == "C02":
+        for v in versions:
+            bad, k = check_stateless(v)
+            n += k
+            if bad:
+                return bad, n
         lines = ["", "1;2", "1;2;3", "1;2;3;0", "1;2;3;0;0", "x;2", ";;;;;", "1;1;1;0;0;x;y", "1;1;1;0;0;x\n", " 1 ; 2;1;0;0;x"]
         for combo in itertools.product(FIELDS[:9], ["0", "255", "x"], ["0", "1", "3", "4", "5"], ["0", "1", "2"], ["0", "3", "x"]):
             lines.append(";".join(combo) + ";p")
